@@ -64,7 +64,12 @@ def body(ctx: H.BaseCtx):
     mops = [ctx.model(s) for s in case["operands"]]
     snap = snapshot_args(ops)
     try:
-        outs = fn(*ops)
+        if case.get("aslist"):
+            # polynomial-likes: (nested) lists of the operand's element polynomials -- no argument is an ndpoly itself
+            nest = lambda p: [nest(x) for x in p] if isinstance(p, numpoly.ndpoly) and p.ndim else p
+            outs = fn(*[nest(o) if isinstance(o, numpoly.ndpoly) and o.ndim else o for o in ops])
+        else:
+            outs = fn(*ops)
     except Exception as e:
         ctx.unexpected_exception(e, case["fn"])
         check_unmodified(ctx, ops, snap)
@@ -98,7 +103,7 @@ def body(ctx: H.BaseCtx):
             got = {tuple(o.names) for o in outs}
             if len(got) != 1:
                 ctx.fail("align", "names differ after %s: %s" % (case["fn"], sorted(got)))
-            elif want and not (case.get("options") or {}).get("retain_names", True):
+            elif want and (case.get("aslist") or not (case.get("options") or {}).get("retain_names", True)):
                 # under the global retain_names=False the shape step may already have dropped names no operand uses (the documented
                 # effect of that option, C15): the common tuple must then be an index-ordered part of the union
                 g = sorted(got)[0]
@@ -210,6 +215,16 @@ def gen_cases(tier: str, seed: int) -> List[Dict]:
             ops_ = [{"kind": "scalar", "shape": [], "slots": [v]} for v in lits] + [S.make_poly_spec("a", ("q0",), [[0], [1]], (), rng, 2, mode="raw")]
             n += 1
             cases.append({"id": "%s-%03d-%s-pynum" % (PROP, n, fn), "op": fn, "fn": fn, "operands": ops_, "limits": lim})
+    # lists of polynomials (and numbers) as arguments: polynomial-likes none of which is an ndpoly
+    for fn in FUNCS:
+        for k in range(2 if quick else 6):
+            a = S.make_poly_spec("a", ("q0", "q1"), [[1, 0], [0, 1]] if k % 2 == 0 else [[0, 0], [2, 1]], (2,), rng, 2, mode="raw")
+            partner = [{"kind": "scalar", "shape": [], "slots": [3]}, {"kind": "array", "shape": [2], "slots": [1, 2]},
+                       S.make_poly_spec("b", ("q2",), [[0], [1]], rng.choice([(2,), (1, 2)]), rng, 2, mode="raw")][k % 3]
+            for sp in (a, partner):
+                sp.pop("pre", None), sp.pop("view", None)
+            n += 1
+            cases.append({"id": "%s-%03d-%s-aslist" % (PROP, n, fn), "op": fn, "fn": fn, "operands": [a, partner], "aslist": True, "limits": lim})
     # operands that declare many indeterminates and use few (wide exponent rows), alone and against narrow ones
     for fn in FUNCS:
         for nn, ua, ub in ((9, [0, 8], [1, 8]), (70, [0, 5], [1, 69]), (33, [0, 32], [32])):
